@@ -101,6 +101,15 @@ theorem runN_frozen_gen (Kn : Kernels γ σ α) (abs : α → α) (eps : α) (k 
     ∀ n, ∀ m ∈ (runN Kn abs eps k n st).mols, Frozen Kn abs eps m :=
   runN_forall Kn abs eps _ (fun k cand m hm => updMol_frozen_gen Kn abs eps k cand m hm) k st h
 
+theorem runN_length (Kn : Kernels γ σ α) (abs : α → α) (eps : α) (k : Nat)
+    (st : State γ σ α) : ∀ n, (runN Kn abs eps k n st).mols.length = st.mols.length := by
+  intro n
+  induction n with
+  | zero => rfl
+  | succ n ih =>
+    show (body Kn abs eps (k + n) (runN Kn abs eps k n st)).mols.length = _
+    rw [body_length, ih]
+
 /-- when every molecule is converged a further body changes no row -/
 theorem body_mols_of_allConverged (Kn : Kernels γ σ α) (abs : α → α) (eps : α) (k : Nat)
     (st : State γ σ α) (hf : ∀ m ∈ st.mols, Frozen Kn abs eps m)
